@@ -97,10 +97,10 @@ func (c *Cache) Commit() (err error) {
 	c.changes.writeMU.RLock()
 	defer c.changes.writeMU.RUnlock()
 	for src = range c.changes.write {
-		if err = c.remoteFS.MkdirAll(path.Dir(src), filesystem.DefaultUnixDirMode); err != nil {
-			return err
-		}
 		if c.bufferFS.IsFile(src) {
+			if err = c.remoteFS.MkdirAll(path.Dir(src), filesystem.DefaultUnixDirMode); err != nil {
+				return err
+			}
 			if err = fshelper.StreamCopy(c.bufferFS, c.remoteFS, src); err != nil {
 				return err
 			}
